@@ -198,6 +198,16 @@ def extra(hyp, tier, seed):
     for c, bad in zip(cases, res):
         if bad:
             fails.append(_bisect(hyp, c))
+    # one long history in THIS process: the codec keeps module-level tables, so the answer for short ids must
+    # not depend on how many long ids were coded before (seeded change C16_C: a memo table flushed after
+    # 2^15 distinct long codes took the static 1/2-byte entries with it)
+    hist = {"session": "widcode",
+            "cmds": [["rt", 0, 300], ["rt", 0x4000, 0x4000 + 70000], ["rt", 0, 300], ["enc", 5, 200, 16000],
+                     ["rt", 0x200000, 0x200000 + 40000], ["rt", 100, 0x4100], ["digest", 0, 2048]]}
+    _, outs = core.evaluate(_SELF(), hyp, hist)
+    cases.append(hist)
+    if core.bad_outcomes(outs):
+        fails.append(hist)
     return {"evaluations": len(cases), "features": {"range-sweep": len(cases),
                                                     "ids-swept": sum(h - l for l, h in ranges)},
             "nontrivial": [core.case_hash(c) for c in cases], "failures": fails,
